@@ -270,6 +270,8 @@ def rule_R6(ctx, prj):
         def trust(self, *a): pass
         def sample(self, *a): pass
         def viol(self, rid, key, site, msg, **k): self.viols.append((key, site, msg))
+        def ok(self, *a, **k): pass
+        def info(self, *a, **k): pass
     pr = Probe()
     c15.run(pr, prj, cap=2)
     if pr.viols:
